@@ -116,6 +116,10 @@ type gauge struct {
 	updated     uint64
 	curr        uint64
 	cachedGauge CachedGauge
+	// reportMu serialises report passes on this gauge: without it a pass that
+	// read an older value can deliver it after an overlapping pass delivered
+	// the newer one, leaving the reporter stale. Update never takes it.
+	reportMu sync.Mutex
 }
 
 func newGauge(cachedGauge CachedGauge) *gauge {
@@ -132,12 +136,18 @@ func (g *gauge) value() float64 {
 }
 
 func (g *gauge) report(name string, tags map[string]string, r StatsReporter) {
+	g.reportMu.Lock()
+	defer g.reportMu.Unlock()
+
 	if atomic.SwapUint64(&g.updated, 0) == 1 {
 		r.ReportGauge(name, tags, g.value())
 	}
 }
 
 func (g *gauge) cachedReport() {
+	g.reportMu.Lock()
+	defer g.reportMu.Unlock()
+
 	if atomic.SwapUint64(&g.updated, 0) == 1 {
 		g.cachedGauge.ReportGauge(g.value())
 	}
